@@ -1,6 +1,7 @@
 (* line protocol (strings = decimal code points joined by ","):
    T|<ns>|<tokens>   ns = prefix:uri;...   tokens = type:value;...     -> result of Selector.select
    A|<ns>|<ast words> (prefix notation, see harness/props/c16.py)       -> "<declared> <b> <c> <d>|<tokens>|<result>"
+   H|<ns>|<tokens>#<tokens>#...   successive assignments to one Selector -> EMPTY | CRASH | ACC ... (what it holds)
    N|<str>           -> "<Selector.normalize>|<Tokenizer.normalize>"
    result = CRASH | REJ | ACC <b> <c> <d>|typ~kind~a~b;...                                                  *)
 open Selector_model
@@ -100,6 +101,16 @@ let () =
           let toks = render x in
           Printf.printf "%d %d %d %d|%s|%s\n" (if declared_b ns x then 1 else 0) (int_of_nat b) (int_of_nat c) (int_of_nat d)
             (String.concat ";" (List.map tok_out toks)) (result_out (run ns (prepass toks)))
+        | ["H"; ns; hist] ->
+          let ns = List.map pair (split ';' ns) in
+          let hist = List.map (fun h -> List.map pair (split ';' h)) (String.split_on_char '#' hist) in
+          print_endline (match assigns0 ns hist with
+              | None -> "CRASH"
+              | Some h -> (match h.h_seq with
+                  | [] -> "EMPTY"
+                  | q -> let ((b, c), d) = h.h_spec in
+                    Printf.sprintf "ACC %d %d %d|%s" (int_of_nat b) (int_of_nat c) (int_of_nat d)
+                      (String.concat ";" (List.map item_out q))))
         | ["N"; x] -> let v = str_in x in print_endline (str_out (sel_normalize v) ^ "|" ^ str_out (tok_normalize v))
         | _ -> print_endline "BAD"
       with Failure m -> print_endline ("BAD " ^ m) | Invalid_argument m -> print_endline ("BAD " ^ m))
